@@ -278,8 +278,8 @@ Lemma take_trailing_fragments_sim b2 b1 :
   Rel (fst (take_trailing_fragments b2)) (fst (take_trailing_fragments b1)) /\
   snd (take_trailing_fragments b2) = snd (take_trailing_fragments b1).
 Proof.
-  intros (tp & -> & HR). unfold take_trailing_fragments. prj2.
-  destruct (word_is_empty (wword b1)); cbn [fst snd]; split; try reflexivity; rel.
+  intros (tp & -> & HR). rewrite !ttf_eq. prj2.
+  split; try reflexivity; rel.
 Qed.
 
 Lemma do_call_sim b2 b1 c : Rel b2 b1 -> simr Rel (do_call b2 c) (do_call b1 c).
